@@ -109,13 +109,13 @@ theorem respPrep_shape (x : RespIn) (o : RespOut) (h : respPrep x = .ok o) :
       o.emptyBody = mustBeEmptyBody x.method x.status ∧ o.wcompress = p.wcompress ∧
       o.bodyCompressed = p.bodyCompressed ∧
       o.cl = (if o.emptyBody && shouldRemoveCL x.method x.status then none else p.cl) ∧
-      o.keepAlive = (if x.forceClose then false else x.reqKeepAlive) ∧
       ((o.emptyBody = true ∧ o.wchunked = false ∧ o.te = false ∧ o.conn = connOf x o.keepAlive) ∨
        (o.emptyBody = false ∧ o.wchunked = true ∧ o.te = true ∧ o.wlength = none ∧ o.conn = connOf x o.keepAlive) ∨
        (o.emptyBody = false ∧ o.wchunked = false ∧ o.te = false ∧ x.chunked = false ∧
           o.wlength = contentLengthProp x p ∧
           ((∃ n, o.wlength = some n ∧ o.conn = connOf x o.keepAlive) ∨
-           (o.wlength = none ∧ x.ver.ge11 = false ∧ o.conn = connOf x false)))) := by
+           (o.wlength = none ∧ x.ver.ge11 = false ∧ o.conn = connOf x false ∧
+              (Gen.C02.closeDelimitedClearsKeepAlive = true → o.keepAlive = false))))) := by
   unfold respPrep at h
   split at h
   · cases h
@@ -133,7 +133,8 @@ theorem respPrep_shape (x : RespIn) (o : RespOut) (h : respPrep x = .ok o) :
         generalize mustBeEmptyBody x.method x.status = eb
         unfold connOf
         cases eb <;> cases hch : x.chunked <;> cases hg : x.ver.ge11 <;>
-          cases hcl : contentLengthProp x p <;> simp
+          cases hcl : contentLengthProp x p <;> simp <;>
+          (try (intro h1 h2; rw [h1] at h2; cases h2))
 
 
 /-- API-admissible use of the response API -/
@@ -259,8 +260,7 @@ theorem emptyStatus0 : Http.isEmptyBodyStatus 0 = false := by decide
 
 theorem serverView_framing (method : Bytes) (ver : Ver) (h : RecvHdr) (hnc : method ≠ bCONNECT) :
     (serverView method ver h).1.framing =
-      if Http.isEmptyBodyMethod method then Framing.none
-      else if h.chunked then .chunked
+      if h.chunked then Framing.chunked
       else match h.cl with
         | some n => if n > 0 then .length n else .none
         | none => .none := by
@@ -270,12 +270,12 @@ theorem serverView_framing (method : Bytes) (ver : Ver) (h : RecvHdr) (hnc : met
     rw [this]; simpa using hnc
   simp only [emptyStatus0, Bool.false_or]
   rcases hcl : h.cl with _ | n
-  · cases hm : Http.isEmptyBodyMethod method <;> cases hch : h.chunked <;> simp [Http.supportedUpgrade, hc, hm]
+  · cases hch : h.chunked <;> simp [Http.supportedUpgrade, hc]
   · rcases Nat.eq_zero_or_pos n with hn | hn
     · subst hn
-      cases hm : Http.isEmptyBodyMethod method <;> cases hch : h.chunked <;> simp [Http.supportedUpgrade, hc, hm]
+      cases hch : h.chunked <;> simp [Http.supportedUpgrade, hc]
     · have hd : decide (n > 0) = true := by simpa using hn
-      cases hm : Http.isEmptyBodyMethod method <;> cases hch : h.chunked <;> simp [Http.supportedUpgrade, hc, hm, hn, hd]
+      cases hch : h.chunked <;> simp [Http.supportedUpgrade, hc, hn, hd]
 
 /-- API-admissible use of the client request API -/
 structure ReqAdmissible (x : ReqIn) (actual : Nat) : Prop where
@@ -287,8 +287,6 @@ structure ReqAdmissible (x : ReqIn) (actual : Nat) : Prop where
   /-- framing headers are left to aiohttp -/
   noUserCL : x.userCL = none
   noUserTE : x.userTEchunked = false
-  /-- a HEAD request carries no body (the server ignores it) -/
-  head : Http.isEmptyBodyMethod x.method = true → x.hasData = false ∧ x.chunked = none
 
 
 
